@@ -47,6 +47,7 @@ func init() {
 	extendProp("C18", "(R18.11) RestoreStableService reports done without having reached the restore step only when no traffic routing is configured or the stable Service does not exist — never on the strength of a spec flag, which can have changed since the selector was pinned.", r6C18)
 	importProp("C05", "C18", map[string]string{"R18.11": "R5.15"}, "(R5.15 = C18 R18.11) every exit restores the stable Service's selector if it was pinned, whatever the spec says now.")
 	extendProp("C19", "(R19.10) ProgressingRolloutFinalizer builds the finalizer from the whole Rollout name (no truncation, trimming or hashing): distinct Rollouts sharing a TrafficRouting hold distinct finalizers.", r6C19)
+	extendProp("C12", "(R12.10) IsCompletedPod answers false only for a phase that is neither Failed nor Succeeded; (R12.11) ListOwnedPods keeps a pod only under IsOwnedBy(...) == true evaluated for that pod.", r6C12)
 	extendProp("C08", "(R8.10) both admission handlers answer 'this workload is not selected by the webhook configuration' only after every entry and rule was examined (or the entry's selector cannot be parsed): the first entry whose rule matches does not decide alone.", r6C08)
 }
 
@@ -1125,4 +1126,72 @@ func r6C19(c *Ctx) {
 	}
 	c.Ob("R19.10", "ProgressingRolloutFinalizer#whole-name", fn.Pos(), n > 0 && bad == "", "the finalizer is the prefix plus the unmodified Rollout name, so two Rollouts never share one",
 		ifs(bad != "", bad+": two Rollouts whose names differ only in the part that is dropped share one finalizer on a TrafficRouting they both use — when the first finishes it removes the finalizer and the routes are restored under the second")+ifs(n == 0, "the name does not reach the result"))
+}
+
+// ---------------------------------------------------------------- C12 R12.10, R12.11
+
+func r6C12(c *Ctx) {
+	p := c.Prog
+	c.Rule("R12.10", "a pod counts as live only when its phase is neither Failed nor Succeeded", 1)
+	if fn := p.Func("pkg/util.IsCompletedPod"); fn == nil {
+		c.Unresolved("R12.10", "util.IsCompletedPod")
+	} else {
+		notPhase := func(ph string) FactM { return FCmp("!=", MField("Phase"), MConst(ph)) }
+		bad := ""
+		n := 0
+		for _, b := range fn.Blocks {
+			if len(b.Instrs) == 0 || b == fn.Recover {
+				continue
+			}
+			ret, ok := b.Instrs[len(b.Instrs)-1].(*ssa.Return)
+			if !ok || len(ret.Results) != 1 {
+				continue
+			}
+			for _, lf := range BoolLeaves(ret.Results[0], b) {
+				n++
+				fs := append(append([]Fact{}, lf.Facts...), FactsFor(fn).At(b)...)
+				if k, isC := lf.V.(*ssa.Const); isC {
+					if constText(k) == "true" {
+						continue
+					}
+				} else {
+					fs = append(fs, FactOf(lf.V, false))
+				}
+				if !HasFact(fs, notPhase("Failed")) || !HasFact(fs, notPhase("Succeeded")) {
+					bad = "the return at " + p.Pos(ret.Pos()) + " can answer 'not completed' for a pod whose phase is Failed or Succeeded (" + TermOf(lf.V).String() + ")"
+				}
+			}
+		}
+		c.Ob("R12.10", "IsCompletedPod#not-completed-only-when", fn.Pos(), n > 0 && bad == "", "false only when phase != Failed and phase != Succeeded",
+			ifs(bad != "", bad+": an evicted pod (Failed, not yet deleted) stays in the set the patcher labels from, takes a slot of the batch, and its live replacement is never labelled"))
+	}
+
+	c.Rule("R12.11", "a listed pod is kept only on an ownership verdict computed for that pod", 1)
+	if fn := p.Func("pkg/util.ListOwnedPods"); fn == nil {
+		c.Unresolved("R12.11", "util.ListOwnedPods")
+	} else {
+		n := 0
+		bad := ""
+		for _, ci := range AllCalls(fn) {
+			bi, ok := ci.Common().Value.(*ssa.Builtin)
+			if !ok || bi.Name() != "append" || len(ci.Common().Args) < 2 {
+				continue
+			}
+			if !strings.Contains(ci.Common().Args[0].Type().String(), "Pod") {
+				continue
+			}
+			n++
+			okv := false
+			for _, f := range FactsFor(fn).At(ci.Block()) {
+				if !FTrue(MResult("IsOwnedBy", 0))(f) {
+					continue
+				}
+				okv = true
+			}
+			if !okv {
+				bad = "the pod appended at " + p.Pos(ci.Pos()) + " is not kept under `IsOwnedBy(c, pod, workload) == true` for this very pod (a verdict carried over from another pod or a cache entry decides instead): a pod the workload does not own enters the batch context, can be labelled, and takes the slot of a real pod"
+			}
+		}
+		c.Ob("R12.11", "ListOwnedPods#kept-on-own-verdict", fn.Pos(), n > 0 && bad == "", "every kept pod passed IsOwnedBy itself", bad+ifs(n == 0, "append to the result not found"))
+	}
 }
